@@ -30,6 +30,8 @@ type ModelCase struct {
 	// BlockAt: request indices before which code outside the VM sets TERMINATE directly on
 	// the (halted) session's state — an out-of-band block (C06 blocked-request check only)
 	BlockAt []int `json:"block_at,omitempty"`
+	// First (C06/C20 blocked-request check only): the engine has a first function
+	First bool `json:"first,omitempty"`
 	// UseDb: the application is served by resource.DbResource over a memdb
 	UseDb bool `json:"use_db,omitempty"`
 }
@@ -85,6 +87,13 @@ func genGuidedHistory(t *rapid.T, a *app.App, maxLen int, persisted bool) []BS {
 			in = ""
 		case k < 18:
 			in = []string{"11", "22"}[uniformN(t, 2, "browse")]
+		case k < 19 && len(offered) > 0:
+			// a near miss of an offered selector: other case, one character more or less
+			sel := offered[uniformN(t, len(offered), "nearsel")]
+			in = []string{swapCase(sel), sel + "0", sel + " ", sel + sel, sel[:len(sel)-1], "0" + sel}[uniformN(t, 6, "nearkind")]
+			if !inputAccepted(in) {
+				in = sel
+			}
 		default:
 			in = []string{"x", "zz", "99", "+1", "1 2", "0000", "hello world", "7*"}[uniformN(t, 8, "junk")]
 		}
@@ -132,7 +141,7 @@ func checkC03(c ModelCase) (o Outcome) {
 	return
 }
 
-var c04Opts = GenOpts{MaxNodes: 5, MultiHalt: true, Flags: true, Sinks: true, OutputSize: true, CustomRoot: true, Errors: true, NoEndNodes: true, RelCatch: true}
+var c04Opts = GenOpts{MaxNodes: 5, MultiHalt: true, Flags: true, Sinks: true, OutputSize: true, CustomRoot: true, Errors: true, NoEndNodes: true, RelCatch: true, ResetEmpty: true}
 
 // addPager adds a node whose content certainly spans several pages, reachable from the
 // entry node with selector 9, offering next/previous, up, rewind and repeat — so that
